@@ -146,7 +146,7 @@ class ModelReplayer:
     def apply(self, op):
         name, a = op[0], op[1:]
         sl = self.slots
-        raised, out, new_anc = "", [], []
+        raised, out, new_anc, cert_z = "", [], [], []
         before_anc = anc_indices(sl[a[0]]) if name == "addcons" else set()
         try:
             with warnings.catch_warnings():
@@ -189,19 +189,35 @@ class ModelReplayer:
                     sl[a[1]] = sl[a[0]].copy()
                 elif name == "addcons":
                     obj = sl[a[0]]
-                    x, n = self.codec.py(a[1]), a[2]
-                    if type(obj).__name__ in SPIN:
-                        P = {(x,): 1} if n == 1 else {(x,): 2, (): -1}
+                    x, v = self.codec.py(a[1]), a[2]
+                    spin = type(obj).__name__ in SPIN
+                    # (relation, polynomial) per variant; see AncCount in ModelObj.tla
+                    if spin:
+                        table = {0: ("eq", {(x,): 1, (): -1}), 1: ("le", {(x,): 1}), 2: ("le", {(x,): 2, (): -1}),
+                                 3: ("ge", {(x,): -1}), 4: ("lt", {(x,): 1, (): -1}), 5: ("ne", {(x,): 1})}
                     else:
-                        P = {(x,): 2, (): -1} if n == 1 else {(x,): 4, (): -3}
-                    obj.add_constraint_le_zero(P, lam=2)
+                        table = {0: ("eq", {(x,): 1, (): -1}), 1: ("le", {(x,): 2, (): -1}), 2: ("le", {(x,): 4, (): -3}),
+                                 3: ("ge", {(x,): -2, (): 1}), 4: ("lt", {(x,): 2, (): -2}), 5: ("ne", {(x,): 2, (): -1})}
+                    rel, P = table[v]
+                    getattr(obj, "add_constraint_%s_zero" % rel)(P, lam=2)
                     new_anc = sorted(anc_indices(obj) - before_anc)
                 elif name == "toenum":
                     obj = sl[a[0]]
+                    import os
+                    from qubovert import _pubo
+                    os.environ["JTIOSUE_QUBOVERT_VERIF"] = "1"
+                    del _pubo._VERIF_CERTS[:]
                     if a[1]:
                         res = obj.to_quso() if type(obj).__name__ in SPIN else obj.to_qubo()
                     else:
                         res = obj.to_enumerated()
+                    # ancilla labels the reduction says it created (hook H1)
+                    for cert in _pubo._VERIF_CERTS:
+                        for t in cert["terms"]:
+                            for (x, y, z, fresh, lam) in t["steps"]:
+                                if fresh:
+                                    cert_z.append(z if isinstance(z, int) and not isinstance(z, bool) else BAD)
+                    del _pubo._VERIF_CERTS[:]
                     out = [[[x if isinstance(x, int) and not isinstance(x, bool) else BAD for x in k], as_int(v)]
                            for k, v in dict.items(res)]
                 else:
@@ -210,7 +226,7 @@ class ModelReplayer:
             raise
         except Exception as e:                  # noqa: the exception is the observation
             raised = type(e).__name__
-        return {"op": list(op), "raised": raised, "slots": self.snapshot(), "out": out, "new_anc": new_anc}
+        return {"op": list(op), "raised": raised, "slots": self.snapshot(), "out": out, "new_anc": new_anc, "cert_z": cert_z}
 
 
 def replay(ops_list, kinds, codec):
